@@ -6,7 +6,7 @@ From Coq Require Import NArith List Bool String.
 From BM Require Import Base.Outcome Base.Prims Base.Own Base.Layout Model.Alloc Proofs.AllocProofs.
 Import ListNotations.
 Open Scope N_scope.
-From BM Require Import Model.RcHist.
+From BM Require Import Model.RcHist Proofs.AllocGen.
 
 Theorem C09_cast_keeps_block : forall k A B c c', wf_cont k A c -> try_cast_cont k A B c = Ok c' ->
   cptr c' = cptr c /\ drop_layout k B c' = drop_layout k A c /\ cont_view_ok k A B c c'.
@@ -25,6 +25,13 @@ Proof. exact rc_hist_inv. Qed.
 Theorem C09_cast_touches_no_count : forall s, rc_step s HCast = s.
 Proof. exact rc_cast_noop. Qed.
 
+(* the same, read off the functions the translator regenerates from src/allocation.rs on every run
+   (Gen/Alloc.v): each returns (never panics) and its result keeps the block, address and validity *)
+Theorem C09_generated : forall k ENV A B c, wf_cont k A c -> gen_pre k A c ->
+  exists r, gen_try k ENV A B c = Ret r /\ cast_outcome_ok k A B c r /\
+            (forall c', r = Ok c' -> wf_cont k B c' /\ cptr c' = cptr c).
+Proof. exact gen_try_char. Qed.
+
 Example C09_nonvacuous :
   wf_cont KVec (mkTy 4 4) (mkCont 4096 3 6) /\
   try_cast_cont KVec (mkTy 4 4) (mkTy 8 4) (mkCont 4096 2 6) = Ok (mkCont 4096 1 3) /\
@@ -37,3 +44,4 @@ Print Assumptions C09_err_identity.
 Print Assumptions C09_result_wf.
 Print Assumptions C09_histories.
 Print Assumptions C09_cast_touches_no_count.
+Print Assumptions C09_generated.
